@@ -152,6 +152,25 @@ def run_cases(run: lib.Run, audit: dict, scale: int = 1):
                 run.spec_failures.append({"label": label, "policy": pol, "env": env, "impl": out, "spec": spec})
         elif spec is not None and "raised" in out:
             run.spec_failures.append({"label": label, "policy": pol, "env": env, "impl": out, "spec": spec})
+    # policy sets through the engine: whatever the engine does with a set before evaluating it, the decision is the set evaluator's
+    k = 0
+    for (pol, env, label, out), ans in zip(batch, answers):
+        if "policies" not in pol or "ok" not in out or ans["spec"] is None:
+            continue
+        k += 1
+        if k % 5:
+            continue
+        try:
+            s_, r_ = env.get("subject") or {}, env.get("resource") or {}
+            req = {"sid": s_.get("id"), "roles": list(s_.get("roles") or []), "sattrs": dict(s_.get("attrs") or {}), "action": env.get("action"),
+                   "rtype": r_.get("type"), "rid": r_.get("id"), "rattrs": dict(r_.get("attrs") or {}), "ctx": dict(env.get("context") or {})}
+            g = real.run_guard(pol, req, {"strict": bool(env.get("__strict_types__"))})
+        except Exception:  # noqa: BLE001
+            continue
+        run.count("set-through-engine")
+        if "ok" in g and g["ok"]["reason"] != "obligation_failed" and g["ok"]["effect"] != ans["spec"]["decision"]:
+            run.spec_failures.append({"label": label + "|engine", "policy": pol, "env": env, "impl": {"ok": {"decision": g["ok"]["effect"], "reason": g["ok"]["reason"],
+                                      "rule_id": g["ok"]["rule_id"], "policy_id": g["ok"]["policy_id"]}}, "spec": ans["spec"]})
 
 
 def shrink(case: dict) -> dict:
